@@ -120,6 +120,7 @@ Theorem C12_frame_sort_values_refines : forall axis f sel single keyres asc,
   let c := fsv_cfs axis (sf_obs f) sel single keyres in
   let n := fsv_n axis (sf_obs f) in
   fsv_dom n c = true ->
+  fsv_zero_ok axis (sf_obs f) keyres = true ->
   fsv_hier_ok axis f (S_order (cfs_keys c) n asc) = true ->
   M_frame_sort_values code_params axis f sel single keyres asc =
   Ok (S_frame_sort axis (sf_obs f) (cfs_keys c) asc).
@@ -176,3 +177,21 @@ Theorem C12_go_key_vectors_current : forall ops st depth, ih_coherent st -> (2 <
   index_keys depth (ih_labels st ++ flat_map ih_op_labels ops).
 Proof. exact code_ih_key_vectors_current. Qed.
 Print Assumptions C12_go_key_vectors_current.
+
+(* Malformed key results are ALWAYS rejected (with the length checks the source states today): whatever class or
+   content the key function returns, if its extent along the sorted axis differs from the axis length the call
+   raises RuntimeError -- no container that lost or invented rows is ever returned. (Series.sort_values: see
+   C12_series_sort_values_refines, which has the same alternative built in.) *)
+Theorem C12_frame_sort_values_rejects_wrong_length : forall axis f sel single c asc, (axis = 1 \/ axis = 0) ->
+  cfs_len c <> fsv_n axis (sf_obs f) ->
+  M_frame_sort_values code_params axis f sel single (Some c) asc = Err "RuntimeError".
+Proof. exact code_frame_sort_values_rejects_wrong_length. Qed.
+Print Assumptions C12_frame_sort_values_rejects_wrong_length.
+
+Theorem C12_sort_index_family_rejects_wrong_length : forall c asc,
+  (forall f, cfs_len c <> length (of_index (sf_obs f)) -> M_frame_sort_index code_params f (Some c) asc = Err "RuntimeError") /\
+  (forall f, cfs_len c <> length (of_columns (sf_obs f)) -> M_frame_sort_columns code_params f (Some c) asc = Err "RuntimeError") /\
+  (forall s, cfs_len c <> length (os_index (ss_obs s)) -> M_series_sort_index code_params s (Some c) asc = Err "RuntimeError") /\
+  (forall depth labels, cfs_len c <> length labels -> M_index_sort code_params depth labels (Some c) asc = Err "RuntimeError").
+Proof. exact code_sort_index_family_rejects_wrong_length. Qed.
+Print Assumptions C12_sort_index_family_rejects_wrong_length.
